@@ -395,6 +395,10 @@ SUBMIT_JOB_CUSTOM_CIPHER(IMB_JOB *job)
 __forceinline IMB_JOB *
 FLUSH_JOB_CUSTOM_CIPHER(IMB_JOB *job)
 {
+        /* nothing to flush if the custom cipher has already run for this job */
+        if (job->status & IMB_STATUS_COMPLETED_CIPHER)
+                return NULL;
+
         return JOB_CUSTOM_CIPHER(job);
 }
 
@@ -419,6 +423,10 @@ SUBMIT_JOB_CUSTOM_HASH(IMB_JOB *job)
 __forceinline IMB_JOB *
 FLUSH_JOB_CUSTOM_HASH(IMB_JOB *job)
 {
+        /* nothing to flush if the custom hash has already run for this job */
+        if (job->status & IMB_STATUS_COMPLETED_AUTH)
+                return NULL;
+
         return JOB_CUSTOM_HASH(job);
 }
 
